@@ -97,7 +97,8 @@ WellFormedFile(f) ==
      mols  : Seq(Seq([rec, id, name, altloc, resname, chain, resid, icode, el, x, y, z]))   molecules, atoms in node order;
              rec = index of the record with that serial number among the atoms the SPEC reads (0 = none), found by the harness
      edges : Seq([a, b, d2])    a, b = rec numbers, d2 = recorded 'distance' squared in pm^2 (-1 = absent / not integral)
-     nalt  : Int                warnings of type pdb-alternate                                                      *)
+     nalt  : Int                warnings of type pdb-alternate
+     err   : BOOLEAN            the reader raised (mols, edges empty then)                                                      *)
 SameAtom(f, r, g) == /\ g.id = r.id /\ g.name = r.name /\ g.resname = r.resname /\ g.chain = (IF f.fmt = "gro" THEN "" ELSE r.chain)
                      /\ g.resid = r.resid /\ g.icode = (IF f.fmt = "gro" THEN "-" ELSE r.icode)
                      /\ g.el = ElementOf(f, r) /\ g.x = r.x /\ g.y = r.y /\ g.z = r.z
@@ -105,6 +106,7 @@ Sq(x) == x * x
 \* R = Read(f), computed once by the caller
 JudgeReadR(f, g, R) ==
   IF ~WellFormedFile(f) THEN "malformed-input"
+  ELSE IF g.err THEN "read-exception"          \* the reader raised on a file this specification covers
   ELSE
   LET all  == F(UNION {{g.mols[m][k].rec : k \in DOMAIN g.mols[m]} : m \in DOMAIN g.mols})
       n    == LET RECURSIVE Sum(_) Sum(m) == IF m = 0 THEN 0 ELSE Len(g.mols[m]) + Sum(m - 1) IN Sum(Len(g.mols))
